@@ -390,7 +390,13 @@ def runLine (r : Report) (sec : Nat) (l : Line) : Report := Id.run do
   -- a panic nobody raised: the library's own two panics have a user cause (a reducer that writes twice / writes after
   -- the output was closed); every other re-raised value must be the value of a user function that did panic
   if resS.startsWith "panic:" ∧ panicked = 0 ∧ resS ≠ "panic:multi" ∧ resS ≠ "panic:sendclosed" then
-    return r.violation sec l.idx s!"the call panicked ({resS}) although no user function did: a runtime panic of the library instead of a cancel / context error hist={histS} op=[{opS}]"
+    -- the value names a user function (pm<i> / pr / pg) although none of THIS call panicked: the panic of another call
+    -- (state shared between calls: a recycled / package-level panic channel); anything else: a runtime panic of the library
+    let foreign := resS = "panic:pr" ∨ resS = "panic:pg" ∨ resS.startsWith "panic:pm"
+    return r.violation sec l.idx (if foreign then
+      s!"the call re-raised a panic ({resS}) that no user function OF THIS CALL raised: 're-raises a user panic' means a panic of this call — the panic of an earlier call's straggler came back (per-call state shared between calls) hist={histS} op=[{opS}]"
+    else
+      s!"the call panicked ({resS}) although no user function did: a runtime panic of the library instead of a cancel / context error hist={histS} op=[{opS}]")
   let some res := (if resS = "ok" then some (.err .noOutput) else parseRes resS)
     | return r.violation sec l.idx s!"outcome {resS} is neither a cancel/context error, a user panic nor a value op=[{opS}]"
   let hr := upTo (· == .ret) hist
